@@ -112,6 +112,24 @@ def run_case(ctx, g, rng):
     if g % 25 == 24:
         return large_case(ctx, g, rng)
     recs = gen.records(rng, ":", 1, 5, allow_delim=True, patterns=True)
+    if g % 7 == 3:
+        # the collection is (the Record objects of) the PRODUCT of another operation - a converter grown through merges or
+        # derived from another one - plus, sometimes, one record that claims a synonym the product acquired on the way:
+        # strict construction, directly and through the extended-prefix-map loader, must refuse exactly then
+        clean = gen.records(rng, ":", 1, 4, allow_delim=True)
+        prod, how_ = gen.build(api, clean, ":", rng, rng.choice(["grown-by-merge", "via-derivation", "via-derivation", "incremental"]), rejections=False)
+        items = list(prod.records)
+        syn_p = [x for r in clean for x in r.psyn]
+        syn_u = [x for r in clean for x in r.usyn]
+        if rng.random() < 0.7 and (syn_p or syn_u):
+            if syn_p and (not syn_u or rng.random() < 0.5):
+                items.append(api.Record(prefix="zzclash", uri_prefix="http://zz.clash/", prefix_synonyms=[rng.choice(syn_p)]))
+            else:
+                items.append(api.Record(prefix="zzclash", uri_prefix="http://zz.clash/", uri_prefix_synonyms=[rng.choice(syn_u)]))
+        S.counters[f"wl:records-of-a-product:{how_.split('(')[0]}"] += 1
+        call(api.Converter, list(items))
+        call(api.Converter.from_extended_prefix_map, list(items))
+        call(api.Converter.from_extended_prefix_map, [r.model_dump() for r in items])
     labels = []
     for _ in range(rng.choice([0, 1, 1, 1, 2])):
         side = rng.choice(["curie", "uri", "both"])
